@@ -6,7 +6,9 @@ import (
 	"context"
 	"errors"
 	"fmt"
+	"io"
 	"math/rand/v2"
+	"os"
 	"runtime"
 	"sort"
 	"strings"
@@ -20,6 +22,8 @@ import (
 	"github.com/AdguardTeam/AdGuardDNS/internal/geoip"
 	"github.com/AdguardTeam/AdGuardDNS/verifh/hlib"
 	"github.com/AdguardTeam/golibs/logutil/slogutil"
+	"google.golang.org/grpc/codes"
+	"google.golang.org/grpc/status"
 )
 
 // ---------------------------------------------------------------------------
@@ -32,6 +36,87 @@ var countries = []geoip.Country{geoip.CountryNone, "AD", "US", "CY"}
 var asns = []uint32{0, 1, 42, 65535, 4294967295}
 
 var errUpload = errors.New("verif: scripted upload failure")
+
+// ptrErr is an error whose nil pointer is still a non-nil error value.
+type ptrErr struct{}
+
+func (e *ptrErr) Error() string { return "verif: typed-nil pointer error" }
+
+// timeoutErr looks like a net.Error.
+type timeoutErr struct{}
+
+func (timeoutErr) Error() string   { return "verif: i/o timeout" }
+func (timeoutErr) Timeout() bool   { return true }
+func (timeoutErr) Temporary() bool { return true }
+
+// errKinds are the error values a failing upload returns.  Whatever the value,
+// the property says the batch must come back.
+var errKinds = []struct {
+	name string
+	mk   func(ctx context.Context) error
+}{
+	{"plain", func(context.Context) error { return errUpload }},
+	{"canceled", func(context.Context) error { return context.Canceled }},
+	{"deadline", func(context.Context) error { return context.DeadlineExceeded }},
+	{"eof", func(context.Context) error { return io.EOF }},
+	{"wrapped-canceled", func(context.Context) error { return fmt.Errorf("uploading: %w", context.Canceled) }},
+	{"joined", func(context.Context) error { return errors.Join(errUpload, io.ErrUnexpectedEOF) }},
+	{"grpc-unavailable", func(context.Context) error { return status.Error(codes.Unavailable, "verif") }},
+	{"grpc-canceled", func(context.Context) error { return status.Error(codes.Canceled, "verif") }},
+	{"grpc-deadline", func(context.Context) error { return status.Error(codes.DeadlineExceeded, "verif") }},
+	{"grpc-exists", func(context.Context) error { return status.Error(codes.AlreadyExists, "verif") }},
+	{"typed-nil", func(context.Context) error { var e *ptrErr; return e }},
+	{"timeout", func(context.Context) error { return timeoutErr{} }},
+	{"empty-text", func(context.Context) error { return errors.New("") }},
+	{"ctx-err", func(ctx context.Context) error {
+		if err := ctx.Err(); err != nil {
+			return err
+		}
+
+		return context.Canceled
+	}},
+	{"wrapped-ctx-err", func(ctx context.Context) error {
+		return fmt.Errorf("opening stream: %w", context.Cause(ctx))
+	}},
+}
+
+// ctxModes are the states of the context a Refresh is called with.  The
+// shutdown refresh and the refresh worker pass contexts with deadlines; the
+// property does not depend on them.
+var ctxModes = []string{"bg", "cancelled", "expired", "cancel-in-flight", "cancel-after-verdict"}
+
+const (
+	ctxBG = iota
+	ctxCancelled
+	ctxExpired
+	ctxCancelInFlight
+	ctxCancelAfter
+)
+
+type ctxInfoKey struct{}
+
+type ctxInfo struct {
+	mode   int
+	cancel context.CancelFunc
+}
+
+func makeCtx(mode int) (ctx context.Context) {
+	info := &ctxInfo{mode: mode}
+	ctx = context.WithValue(context.Background(), ctxInfoKey{}, info)
+	switch mode {
+	case ctxCancelled:
+		ctx, info.cancel = context.WithCancel(ctx)
+		info.cancel()
+	case ctxExpired:
+		ctx, info.cancel = context.WithDeadline(ctx, time.Unix(1, 0))
+	case ctxCancelInFlight, ctxCancelAfter:
+		ctx, info.cancel = context.WithCancel(ctx)
+	default:
+		info.cancel = func() {}
+	}
+
+	return ctx
+}
 
 // meta is the per-query data the property's last sentence talks about.
 type meta struct {
@@ -49,15 +134,26 @@ type rec struct {
 	M meta
 }
 
-func devID(d int) agd.DeviceID { return agd.DeviceID(fmt.Sprintf("dev%04d", d)) }
+// devID names device d.  Devices 2i and 2i+1 differ only in the case of their
+// letters: they are different devices.
+func devID(d int) agd.DeviceID {
+	if d%2 == 1 {
+		return agd.DeviceID(fmt.Sprintf("DEV%04d", d-1))
+	}
+
+	return agd.DeviceID(fmt.Sprintf("dev%04d", d))
+}
 
 func devNum(id agd.DeviceID) int {
 	var d int
-	if _, err := fmt.Sscanf(string(id), "dev%04d", &d); err != nil {
-		return -1
+	if _, err := fmt.Sscanf(string(id), "dev%d", &d); err == nil {
+		return d
+	}
+	if _, err := fmt.Sscanf(string(id), "DEV%d", &d); err == nil {
+		return d + 1
 	}
 
-	return d
+	return -1
 }
 
 func ctryIndex(c geoip.Country) int {
@@ -125,8 +221,10 @@ type flight struct {
 	snap    map[int]rec  // content of the batch when Upload was entered
 	after   map[int]rec  // content of the batch when Upload was released
 	lastCut map[int]meta // harness ghost: most recent meta per device when the batch was cut
-	verdict chan bool
+	verdict chan int // -1: succeed; e ≥ 0: fail with errKinds[e]
 	stamp   int64
+	ctx     context.Context
+	info    *ctxInfo
 }
 
 type scripted struct {
@@ -136,16 +234,23 @@ type scripted struct {
 
 var _ billstat.Uploader = (*scripted)(nil)
 
-func (u *scripted) Upload(_ context.Context, records billstat.Records) (err error) {
-	f := &flight{snap: canonRecords(records), verdict: make(chan bool, 1), stamp: u.opIdx.Load()}
+func (u *scripted) Upload(ctx context.Context, records billstat.Records) (err error) {
+	f := &flight{snap: canonRecords(records), verdict: make(chan int, 1), stamp: u.opIdx.Load(), ctx: ctx}
+	f.info, _ = ctx.Value(ctxInfoKey{}).(*ctxInfo)
 	u.entered <- f
-	ok := <-f.verdict
+	e := <-f.verdict
 	f.after = canonRecords(records)
-	if ok {
+	if e < 0 {
 		return nil
 	}
+	err = errKinds[e].mk(ctx)
+	if f.info != nil && f.info.mode == ctxCancelAfter {
+		// The caller's context ends between the upload's failure and the
+		// deferred clean-up in Refresh.
+		f.info.cancel()
+	}
 
-	return errUpload
+	return err
 }
 
 // ---------------------------------------------------------------------------
@@ -166,17 +271,34 @@ type op struct {
 	M  meta
 	I  int
 	OK bool
+	N  int // opRec: number of identical Record calls (0 and 1 both mean one)
+	C  int // opBegin: index into ctxModes
+	E  int // opEnd, !OK: index into errKinds
 }
 
 func (o op) String() string {
 	switch o.K {
 	case opRec:
+		if o.N > 1 {
+			return fmt.Sprintf("recn %d %d %d %d %d %d", o.D, o.N, o.M.T, o.M.C, o.M.A, o.M.P)
+		}
+		if o.C != 0 {
+			return fmt.Sprintf("rec %d %d %d %d %d %s", o.D, o.M.T, o.M.C, o.M.A, o.M.P, ctxModes[o.C])
+		}
+
 		return fmt.Sprintf("rec %d %d %d %d %d", o.D, o.M.T, o.M.C, o.M.A, o.M.P)
 	case opBegin:
+		if o.C != 0 {
+			return "begin " + ctxModes[o.C]
+		}
+
 		return "begin"
 	default:
 		if o.OK {
 			return fmt.Sprintf("ok %d", o.I)
+		}
+		if o.E != 0 {
+			return fmt.Sprintf("fail %d %s", o.I, errKinds[o.E].name)
 		}
 
 		return fmt.Sprintf("fail %d", o.I)
@@ -205,7 +327,7 @@ type trace struct {
 	discarded bool
 	hung      bool
 	// shape counters
-	nOK, nFail, nBlocked, nOverlap, nMergePresent, nMergeAbsent, nRecInFlight, nEmptyBatch, nNone int
+	nOK, nFail, nBlocked, nOverlap, nMergePresent, nMergeAbsent, nRecInFlight, nEmptyBatch, nNone, nCtx, nErrKinds int
 	finalTotals                                                                                   string
 }
 
@@ -340,8 +462,17 @@ func execReal(k int, ops []op) (tr *trace) {
 		}
 		switch o.K {
 		case opRec:
-			rr.Record(ctx, devID(o.D), countries[o.M.C], geoip.ASN(o.M.A), time.Unix(0, o.M.T), agd.Protocol(o.M.P))
-			recorded[o.D]++
+			n := max(o.N, 1)
+			ctx := ctx
+			if o.C != 0 {
+				// The request's context may be over by the time it is billed.
+				ctx = makeCtx(o.C)
+				tr.nCtx++
+			}
+			for i := 0; i < n; i++ {
+				rr.Record(ctx, devID(o.D), countries[o.M.C], geoip.ASN(o.M.A), time.Unix(0, o.M.T), agd.Protocol(o.M.P))
+			}
+			recorded[o.D] += int64(n)
 			last[o.D] = o.M
 			if len(inflight) > 0 {
 				tr.nRecInFlight++
@@ -353,15 +484,19 @@ func execReal(k int, ops []op) (tr *trace) {
 			}
 			emit(o.String(), showRecs("pend", one))
 		case opBegin:
-			go func() { returned <- rr.Refresh(ctx) }()
+			rctx := makeCtx(o.C)
+			if o.C != 0 {
+				tr.nCtx++
+			}
+			go func() { returned <- rr.Refresh(rctx) }()
 			if len(inflight) == 0 && queued == 0 {
 				f := waitEnter()
 				if f == nil {
 					return tr
 				}
 				ans := enter(f)
-				check("begin")
-				emit("begin", ans)
+				check(o.String())
+				emit(o.String(), ans)
 
 				continue
 			}
@@ -372,12 +507,12 @@ func execReal(k int, ops []op) (tr *trace) {
 				tr.nOverlap++
 				ans := enter(f)
 				check("begin(overlapping)")
-				emit("begin", ans)
+				emit(o.String(), ans)
 			case <-time.After(overlapWait):
 				tr.nBlocked++
 				queued++
 				check("begin(blocked)")
-				emit("begin", "blocked")
+				emit(o.String(), "blocked")
 			}
 		case opEnd:
 			if o.I < 0 || o.I >= len(inflight) {
@@ -388,7 +523,17 @@ func execReal(k int, ops []op) (tr *trace) {
 			}
 			f := inflight[o.I]
 			before := canonRecords(verifPending(rr))
-			f.verdict <- o.OK
+			if f.info != nil && f.info.mode == ctxCancelInFlight {
+				f.info.cancel()
+			}
+			if o.OK {
+				f.verdict <- -1
+			} else {
+				f.verdict <- o.E
+				if o.E != 0 {
+					tr.nErrKinds++
+				}
+			}
 			var err error
 			select {
 			case err = <-returned:
@@ -487,7 +632,7 @@ func execReal(k int, ops []op) (tr *trace) {
 		}
 		f := inflight[0]
 		inflight = inflight[1:]
-		f.verdict <- true
+		f.verdict <- -1
 		<-returned
 		for d, r := range f.snap {
 			delivered[d] += r.N
@@ -500,7 +645,7 @@ func execReal(k int, ops []op) (tr *trace) {
 	if f == nil {
 		return tr
 	}
-	f.verdict <- true
+	f.verdict <- -1
 	<-returned
 	for d, r := range f.snap {
 		delivered[d] += r.N
@@ -594,6 +739,8 @@ func (x *runner) runCase(kind string, k int, ops []op) {
 	r.Distribution["record.while_in_flight"] += tr.nRecInFlight
 	r.Distribution["batch.empty"] += tr.nEmptyBatch
 	r.Distribution["end.no_such_upload"] += tr.nNone
+	r.Distribution["begin.ctx_not_background"] += tr.nCtx
+	r.Distribution["upload.fail.special_error"] += tr.nErrKinds
 	nontrivial := tr.nFail > 0 && tr.nOK > 0 && tr.nRecInFlight > 0
 	r.Case(strings.Join(tr.lines, ";"), nontrivial)
 	if nontrivial {
@@ -664,6 +811,8 @@ type gen struct {
 	rng     *rand.Rand
 	clock   int64
 	overlap *int // remaining budget of overlapping begin attempts (2 ms each on serialised code)
+	special bool // use non-background contexts, special error values and bulk records
+	bulk    int  // largest bulk record count
 }
 
 func (g *gen) meta() meta {
@@ -699,7 +848,13 @@ func (g *gen) genOps(k, length int, shape string) (ops []op) {
 		}
 		switch {
 		case x < wRec:
-			ops = append(ops, op{K: opRec, D: rng.IntN(k), M: g.meta()})
+			o := op{K: opRec, D: rng.IntN(k), M: g.meta()}
+			if g.special && rng.IntN(10) == 0 {
+				o.C = []int{ctxCancelled, ctxExpired}[rng.IntN(2)]
+			} else if g.special && g.bulk > 0 && rng.IntN(12) == 0 {
+				o.N = []int{2, 3, 255, 256, 257, g.bulk}[rng.IntN(6)]
+			}
+			ops = append(ops, o)
 		case x < wRec+wBegin:
 			if inflight > 0 {
 				if queued > 0 || *g.overlap <= 0 {
@@ -710,7 +865,11 @@ func (g *gen) genOps(k, length int, shape string) (ops []op) {
 			} else {
 				inflight++
 			}
-			ops = append(ops, op{K: opBegin})
+			o := op{K: opBegin}
+			if g.special && rng.IntN(3) == 0 {
+				o.C = 1 + rng.IntN(len(ctxModes)-1)
+			}
+			ops = append(ops, o)
 		case x < wRec+wBegin+wOK+wFail:
 			ok := x < wRec+wBegin+wOK
 			if inflight == 0 {
@@ -721,7 +880,11 @@ func (g *gen) genOps(k, length int, shape string) (ops []op) {
 
 				continue
 			}
-			ops = append(ops, op{K: opEnd, I: 0, OK: ok})
+			o := op{K: opEnd, I: 0, OK: ok}
+			if !ok && g.special && rng.IntN(2) == 0 {
+				o.E = rng.IntN(len(errKinds))
+			}
+			ops = append(ops, o)
 			// On serialised code a queued refresh starts right away.
 			if queued > 0 {
 				queued--
@@ -752,7 +915,97 @@ func (x *runner) randomCampaign() {
 			length = 100 + rng.IntN(200)
 		}
 		shape := shapes[rng.IntN(len(shapes))]
+		// Half of the cases vary what the property says must not matter: the
+		// state of the contexts, the error value of a failed upload.
+		g.special = i%2 == 1
+		g.bulk = 0
+		if i%40 == 1 {
+			g.bulk = 65536 + rng.IntN(5000)
+		}
 		x.runCase(shape, k, g.genOps(k, length, shape))
+	}
+}
+
+// wideCampaign: batches with many devices.  Mistakes that depend on the size
+// of a batch (chunked remerges, limits on the number of records) need more
+// devices than the other campaigns use.
+func (x *runner) wideCampaign() {
+	rng := x.o.Rand("wide")
+	widths := []int{65, 101, 129, 257, 513, 1025}
+	reps := 2
+	if x.o.Thorough() {
+		widths = append(widths, 2049, 4097)
+		reps = 3
+	}
+	budget := 0
+	g := &gen{rng: rng, clock: 1_700_000_000_000_000_000, overlap: &budget}
+	for _, w := range widths {
+		for i := 0; i < reps && !x.expired(); i++ {
+			k := w + rng.IntN(1+w/8)
+			var ops []op
+			// Every device gets a record, in a random order; then uploads
+			// fail and succeed while some devices are billed again.
+			for _, d := range rng.Perm(k) {
+				ops = append(ops, op{K: opRec, D: d, M: g.meta()})
+			}
+			g.special = i%2 == 1
+			shape := []string{"failstorm", "mixed"}[i%2]
+			ops = append(ops, g.genOps(k, 20+rng.IntN(40), shape)...)
+			x.runCase("wide", k, ops)
+		}
+	}
+}
+
+// deepCampaign: long runs of consecutive failed uploads (with and without
+// records in between) before one succeeds, and large per-device counts.
+func (x *runner) deepCampaign() {
+	rng := x.o.Rand("deep")
+	runs := []int{60, 300, 1100}
+	if x.o.Thorough() {
+		runs = append(runs, 5000, 20000)
+	}
+	budget := 0
+	g := &gen{rng: rng, clock: 1_700_000_000_000_000_000, overlap: &budget}
+	for _, n := range runs {
+		for variant := 0; variant < 3 && !x.expired(); variant++ {
+			k := 1 + rng.IntN(3)
+			ops := []op{{K: opRec, D: 0, M: g.meta()}}
+			for i := 0; i < n; i++ {
+				if variant >= 1 && rng.IntN(3) == 0 {
+					ops = append(ops, op{K: opRec, D: rng.IntN(k), M: g.meta()})
+				}
+				b := op{K: opBegin}
+				e := op{K: opEnd, I: 0}
+				if variant == 2 {
+					b.C = rng.IntN(len(ctxModes))
+					e.E = rng.IntN(len(errKinds))
+				}
+				ops = append(ops, b)
+				if variant >= 1 && rng.IntN(3) == 0 {
+					ops = append(ops, op{K: opRec, D: rng.IntN(k), M: g.meta()})
+				}
+				ops = append(ops, e)
+			}
+			ops = append(ops, op{K: opBegin}, op{K: opEnd, I: 0, OK: true})
+			x.runCase("deep", k, ops)
+		}
+	}
+	// Large counts: more than 2^16 (and, thorough, 2^24) queries of one device
+	// between two successful uploads, some of them through a remerge.
+	bulks := []int{65535, 65536, 70001}
+	if x.o.Thorough() {
+		bulks = append(bulks, 1<<24+3)
+	}
+	for _, n := range bulks {
+		if x.expired() {
+			break
+		}
+		m1, m2, m3 := g.meta(), g.meta(), g.meta()
+		x.runCase("bulk", 2, []op{
+			{K: opRec, D: 0, M: m1, N: n}, {K: opRec, D: 1, M: m1}, {K: opBegin}, {K: opRec, D: 0, M: m2, N: n / 2},
+			{K: opEnd, I: 0}, {K: opBegin}, {K: opRec, D: 0, M: m3, N: 2}, {K: opEnd, I: 0, E: 1}, {K: opBegin}, {K: opEnd, I: 0, OK: true},
+			{K: opRec, D: 0, M: m1, N: n}, {K: opBegin}, {K: opEnd, I: 0, OK: true},
+		})
 	}
 }
 
@@ -805,6 +1058,9 @@ func (x *runner) exhaustiveCampaign(maxLen int) {
 	)
 	var seq []sym
 	count := 0
+	// The order of the ops is enumerated; the context states and the error
+	// values, which must not matter, are drawn per op.
+	rot := x.o.Rand("exhaustive")
 	var walk func(inflight bool)
 	emitCase := func() {
 		var ops []op
@@ -815,11 +1071,11 @@ func (x *runner) exhaustiveCampaign(maxLen int) {
 				clock += 7
 				ops = append(ops, op{K: opRec, D: int(s), M: meta{T: clock, C: int(clock/7) % 4, A: uint32(clock), P: uint8(clock/7) % 6}})
 			case sBegin:
-				ops = append(ops, op{K: opBegin})
+				ops = append(ops, op{K: opBegin, C: rot.IntN(len(ctxModes))})
 			case sOK:
 				ops = append(ops, op{K: opEnd, I: 0, OK: true})
 			case sFail:
-				ops = append(ops, op{K: opEnd, I: 0, OK: false})
+				ops = append(ops, op{K: opEnd, I: 0, OK: false, E: rot.IntN(len(errKinds))})
 			}
 		}
 		x.runCase("exhaustive", 2, ops)
@@ -1023,15 +1279,22 @@ func main() {
 	}
 	x := &runner{o: o, r: r, m: m, reported: map[string]bool{}, deadline: time.Now().Add(budget)}
 
-	x.scenarioCampaign()
-	x.randomCampaign()
+	timed := func(name string, f func()) {
+		t0 := time.Now()
+		f()
+		fmt.Fprintf(os.Stderr, "c16: campaign %s took %s\n", name, time.Since(t0).Round(time.Millisecond))
+	}
+	timed("scenario", x.scenarioCampaign)
+	timed("wide", x.wideCampaign)
+	timed("deep", x.deepCampaign)
+	timed("random", x.randomCampaign)
 	if o.Thorough() {
-		x.exhaustiveCampaign(9)
+		timed("exhaustive", func() { x.exhaustiveCampaign(9) })
 	} else {
-		x.exhaustiveCampaign(7)
+		timed("exhaustive", func() { x.exhaustiveCampaign(7) })
 	}
 	if len(r.Violations) == 0 {
-		x.concurrentCampaign()
+		timed("concurrent", x.concurrentCampaign)
 	} else {
 		// The sequential campaigns already have replays.  Racing goroutines
 		// against code that, e.g., hands the live map to the uploader can
@@ -1039,7 +1302,7 @@ func main() {
 		// lose them.
 		r.Notes = append(r.Notes, "concurrent campaign skipped: the sequential campaigns already found violations")
 	}
-	pbCampaign(x)
+	timed("grpc", func() { pbCampaign(x) })
 
 	r.Finish()
 }
